@@ -238,6 +238,7 @@ type Obligation struct {
 	Result *SolveResult
 	Query  string
 	exclTerm          *Term
+	splitPos          []string
 	splitConds        []Term // branch conditions defined before this obligation (for case splitting on timeout)
 	knownExpectedFail *KnownFinding
 }
@@ -293,9 +294,12 @@ type Run struct {
 	ifaceSpec *FuncSpec
 	conds     []Term
 	condMark  []int
+	condPos   []string
 	nameCount map[string]int
 	localBoxes []localBox
 	escaping  map[string]bool
+	fvLocs    map[string]*Loc
+	coverSites map[string]bool
 	ifaceAssigns []Expr
 }
 
@@ -454,7 +458,8 @@ func (r *Run) mergeStates(conds []Term, sts []*State) *State {
 	} else {
 		ep := r.newEpoch()
 		for i, s := range sts {
-			ep.parents = append(ep.parents, epochParent{conds[i], s})
+			// a snapshot: the caller may go on updating (or overwrite in place) the state object it passed in
+			ep.parents = append(ep.parents, epochParent{conds[i], s.clone()})
 		}
 		out.ep = ep
 	}
